@@ -14,8 +14,26 @@
  *   collect <ids…>           the real GC_Mark with the listed objects referenced from this frame; every root and every
  *                            listed object must come out marked (oracle); marks are then reduced to exactly those and
  *                            GC_Sweep runs
+ *   tnewx <id> <u> <ids…>    exact threshold path, in process: gc->mitems = gc->nitems, then the real alloc -> GC_Set ->
+ *                            GC_Mark (stack scan) -> GC_Sweep; between GC_Mark and GC_Sweep (hook: the `realloc` of the pending
+ *                            list at the head of GC_Sweep, interposed by a macro in this file) the marks are reduced to the
+ *                            roots, the listed objects and the new one — each of which the real GC_Mark must have marked
+ *                            (oracle) —, so the outcome is deterministic and compared state for state with the model
  *   kill <a> <b> | unkill <a>   the destructor of <a> calls del(<b>) (removals while a sweep / a removal is in progress)
+ *   delnull                  del(NULL) at top level
+ *   killnull <a>             the destructor of <a> also calls del(NULL), after its kills.  Harmless under del / del_raw; during
+ *                            GC_Sweep's finalisation GC_Rem_Ptr matches NULL against a struck-off slot of the pending list and
+ *                            runs dealloc(destruct(NULL)): known finding KF-C17-null-del-sweep (X sig=reg-null-del-sweep),
+ *                            `O <op> abort`, and the run of the op file ends there (the collector is left mid-sweep)
+ *   dealloc <id>             dealloc / dealloc_root (src/Alloc.c) of the object: the collector is not told.  For a registered
+ *                            object this is known finding KF-C17-dealloc-stale (X sig=reg-dealloc-stale for every consequence
+ *                            the oracle sees: stale member, count, root flag after the address is allocated again)
+ *   strict                   from here on the oracle's ledger is the one of the property text: a managed allocation while the
+ *                            collector is stopped counts as managed, a del while it is stopped as deleted (F23; what the
+ *                            registry then gets wrong is reported as X sig=reg-stopped, known finding KF-C17-stopped).
+ *                            Without `strict` the ledger follows the code in the stopped window (theorem C17_registry_exact).
  *   stop | start             stop / start the collector
+ * `killnull`-in-a-sweep, `dealloc` of a registered object and `strict` are never generated: witnesses only (corpus/kf_c17_*).
  *   dumpevery <k>            print the slot array (and run the oracle) after every k-th op only
  *   ideal <lo> <hi>          GC_Ideal_Size(n) for lo <= n < hi as change points
  * After every op:  O <op> <result> fin=<ids deallocated, in order> | n= ni= mi= lo= hi= run= e=<idx:home:id:root:marked,…>
@@ -24,6 +42,12 @@
  * Direct oracle (independent of the Lean model): a ledger of every id ever seen — managed / unmanaged / dead, root flag,
  * expected number of deallocations — against mem() for every id, the entry array (stored home, duplicates, root flag,
  * local probe-distance invariant, bounds, marks clear), nitems == occupied == managed ids, an empty slot exists. */
+#include <stdlib.h>
+/* hook between GC_Mark and GC_Sweep inside GC_Set: GC_Sweep starts with `gc->freelist = realloc(gc->freelist, …)`; every
+   realloc of the library goes through v_realloc, which calls back when armed (no change to /repo) */
+static void (*v_realloc_hook)(void* p, size_t n) = NULL;
+static void* v_realloc(void* p, size_t n) { if (v_realloc_hook) v_realloc_hook(p, n); return (realloc)(p, n); }
+#define realloc(p, n) v_realloc((p), (n))
 #include "common.h"
 #include <sys/mman.h>
 #include <errno.h>
@@ -41,6 +65,10 @@ enum { NEVER = 0, MANAGED = 1, UNMANAGED = 2, DEAD = 3 };
 static int64_t id_u[MAXID]; static char id_known[MAXID]; static char state[MAXID]; static char rootflag[MAXID];
 static int ndealloc[MAXID], expdealloc[MAXID];
 static int* kills[MAXID]; static int nkills[MAXID];
+static char killnull[MAXID];          /* destructor also calls del(NULL) */
+static char stale[MAXID];             /* dealloc'ed while registered (KF-C17-dealloc-stale) */
+static char stopped_touched[MAXID];   /* allocated / deleted while stopped under `strict` (KF-C17-stopped) */
+static int dealloc_taint = 0, strict = 0, strict_taint = 0;
 static int maxid = -1;
 static int want_id = -1;
 static int* trace; static size_t ntrace, captrace;
@@ -78,6 +106,7 @@ static void Probe_Destruct(var self) {
   int id = (int)((struct Probe*)self)->id;
   if (!kills_enabled) return;
   for (int k = 0; k < nkills[id]; k++) del(addr_of(kills[id][k]));
+  if (killnull[id]) del(NULL);
 }
 
 /* ---- printing ---- */
@@ -135,19 +164,20 @@ static void oracle(struct GC* gc, size_t line, const char* op) {
     if (p < ADDR0 || (p - ADDR0) % 8) { X("sig=reg-inv line=%zu what=after %s foreign pointer in the registry", line, op); n_x++; continue; }
     int id = (int)((struct Probe*)e->ptr)->id;
     if (id < 0 || id > maxid || !id_known[id] || addr_of(id) != e->ptr) { X("sig=reg-inv line=%zu what=after %s entry %zu is not a known object", line, op, i); n_x++; continue; }
-    if (stamp[id] == stampgen) { X("sig=reg-dup line=%zu what=after %s object %d is recorded twice", line, op, id); n_x++; }
+    const char* ksig = stale[id] ? "reg-dealloc-stale" : stopped_touched[id] ? "reg-stopped" : NULL;
+    if (stamp[id] == stampgen) { X("sig=%s line=%zu what=after %s object %d is recorded twice", ksig ? ksig : "reg-dup", line, op, id); n_x++; }
     stamp[id] = stampgen;
-    if (state[id] != MANAGED) { X("sig=reg-mem line=%zu what=after %s object %d (ledger state %d) is in the registry", line, op, id, state[id]); n_x++; }
-    if ((e->root != 0) != (rootflag[id] != 0)) { X("sig=reg-root line=%zu what=after %s object %d recorded with root=%d, allocated with root=%d", line, op, id, e->root, rootflag[id]); n_x++; }
+    if (state[id] != MANAGED) { X("sig=%s line=%zu what=after %s object %d (ledger state %d) is in the registry", ksig ? ksig : "reg-mem", line, op, id, state[id]); n_x++; }
+    if ((e->root != 0) != (rootflag[id] != 0)) { X("sig=%s line=%zu what=after %s object %d recorded with root=%d, allocated with root=%d", ksig ? ksig : "reg-root", line, op, id, e->root, rootflag[id]); n_x++; }
   }
   for (int id = 0; id <= maxid; id++) {
     if (!id_known[id]) continue;
     if (state[id] == MANAGED) managed++;
     int m = mem(current(GC), addr_of(id)) ? 1 : 0;
-    if (m != (state[id] == MANAGED)) { X("sig=reg-mem line=%zu what=after %s mem(object %d) = %d, ledger state %d", line, op, id, m, state[id]); n_x++; }
-    if (ndealloc[id] != expdealloc[id]) { X("sig=reg-final line=%zu what=after %s object %d deallocated %d times, expected %d", line, op, id, ndealloc[id], expdealloc[id]); n_x++; expdealloc[id] = ndealloc[id]; }
+    if (m != (state[id] == MANAGED)) { X("sig=%s line=%zu what=after %s mem(object %d) = %d, ledger state %d", stale[id] ? "reg-dealloc-stale" : stopped_touched[id] ? "reg-stopped" : "reg-mem", line, op, id, m, state[id]); n_x++; }
+    if (ndealloc[id] != expdealloc[id]) { X("sig=%s line=%zu what=after %s object %d deallocated %d times, expected %d", stale[id] ? "reg-dealloc-stale" : stopped_touched[id] ? "reg-stopped" : "reg-final", line, op, id, ndealloc[id], expdealloc[id]); n_x++; expdealloc[id] = ndealloc[id]; }
   }
-  if (occ != gc->nitems || managed != gc->nitems) { X("sig=reg-count line=%zu what=after %s nitems=%zu occupied=%zu managed=%zu", line, op, gc->nitems, occ, managed); n_x++; }
+  if (occ != gc->nitems || managed != gc->nitems) { X("sig=%s line=%zu what=after %s nitems=%zu occupied=%zu managed=%zu", dealloc_taint ? "reg-dealloc-stale" : strict_taint ? "reg-stopped" : "reg-count", line, op, gc->nitems, occ, managed); n_x++; }
   if (gc->nslots > 0 && empty == 0) { X("sig=reg-full line=%zu what=after %s no empty slot (nslots=%zu)", line, op, gc->nslots); n_x++; }
   if (gc->freenum != 0 || gc->freelist != NULL) { X("sig=reg-pending line=%zu what=after %s pending list not released", line, op); n_x++; }
 }
@@ -248,6 +278,38 @@ static void tnew_child(struct GC* gc, int id, size_t line) {
   _exit(0);
 }
 
+/* an exception left the collector (the only known way: dealloc(destruct(NULL)) from GC_Rem_Ptr during a sweep): report,
+   print the observation the model's `none` corresponds to, and stop — the collector is left in the middle of GC_Sweep */
+static void aborted(struct GC* gc, size_t line, const char* op, var exc) {
+  int anynull = 0;
+  for (int k = 0; k <= maxid; k++) if (killnull[k]) anynull = 1;
+  if (exc == ValueError && anynull && gc->freenum > 0)
+    X("sig=reg-null-del-sweep line=%zu what=%s: a destructor called del(NULL) while GC_Sweep was finalising (%zu objects on the pending list): GC_Rem_Ptr matched a struck-off slot and ran dealloc(destruct(NULL)) -> ValueError inside the collector", line, op, (size_t)gc->freenum);
+  else
+    X("sig=reg-exception line=%zu what=%s raised %s inside the collector", line, op, v_exc_name(exc));
+  O("%s abort", op);
+  I("ops=%zu dumps=%zu oracle_failures=%zu halted=1", n_ops, n_dumps, n_x + 1);
+  fflush(stdout);
+  _exit(0);
+}
+#define GUARD(gc, line, op, stmt) do { var exc_; V_TRY(exc_, stmt); if (exc_) aborted(gc, line, op, exc_); } while (0)
+
+/* tnewx: called from every realloc of the library while armed; fires on the first statement of GC_Sweep */
+static struct GC* hook_gc; static char* hook_listed; static int hook_new_id; static size_t hook_line; static int hook_fired;
+static void tnewx_hook(void* p, size_t n) {
+  struct GC* gc = hook_gc;
+  if (p != (void*)gc->freelist || n != sizeof(var) * gc->nitems) return;
+  v_realloc_hook = NULL; hook_fired++;
+  for (size_t i = 0; i < gc->nslots; i++) {
+    struct GCEntry* e = &gc->entries[i];
+    if (e->hash == 0) continue;
+    int id = (int)((struct Probe*)e->ptr)->id;
+    int must = e->root || hook_listed[id] || id == hook_new_id;
+    if (must && !e->marked) { X("sig=reg-markreal line=%zu what=GC_Mark (threshold path) left %s object %d unmarked", hook_line, e->root ? "root" : id == hook_new_id ? "new" : "stack-referenced", id); n_x++; }
+    e->marked = must;            /* drop marks that come from stale words on the C stack */
+  }
+}
+
 int main(int argc, char** argv) {
   v_init();
   if (argc < 2) { fprintf(stderr, "usage: h_reg <opfile>\n"); return 2; }
@@ -257,6 +319,8 @@ int main(int argc, char** argv) {
   struct GC* gc = current(GC);
   volatile var held[LISTMAX + 1];
   for (int i = 0; i <= LISTMAX; i++) held[i] = NULL;
+  volatile var heldx[202];
+  for (int i = 0; i < 202; i++) heldx[i] = NULL;
   work = malloc(sizeof(int) * (MAXID + 1));
   static int args[1 << 20];
   for (size_t li = 0; li < nl; li++) {
@@ -281,6 +345,7 @@ int main(int argc, char** argv) {
     }
     if (bad) { O("bad-op"); continue; }
     int is_new = !strcmp(op, "new"), is_root = !strcmp(op, "newroot"), is_raw = !strcmp(op, "newraw"), is_t = !strcmp(op, "tnew");
+    int is_tx = !strcmp(op, "tnewx");
     if (!strcmp(op, "dumpevery") && na == 1) {
       if (args[0] == 0) { O("bad-op"); continue; }
       every = args[0]; since = 0; O("dumpevery %d", args[0]);
@@ -312,20 +377,66 @@ int main(int argc, char** argv) {
         int running = gc->running;
         var p = is_root ? alloc_root(Probe) : alloc(Probe);
         if (p != addr_of(id)) { X("sig=reg-harness line=%zu what=allocation did not use the probe allocator", line); n_x++; }
-        state[id] = running ? MANAGED : UNMANAGED; rootflag[id] = running && is_root;
+        if (!running && strict) { state[id] = MANAGED; rootflag[id] = is_root; stopped_touched[id] = 1; strict_taint = 1; }
+        else { state[id] = running ? MANAGED : UNMANAGED; rootflag[id] = running && is_root; }
       }
+      emit(gc, line, op, "ok");
+    } else if (is_tx && na >= 2) {
+      int id = args[0];
+      static char listed[MAXID];
+      int okargs = na - 2 <= 200;
+      if (okargs) for (size_t k = 2; k < na; k++) if (args[k] >= MAXID || !id_known[args[k]]) okargs = 0;
+      if (!okargs || !register_id(id, big[1]) || state[id] == MANAGED || state[id] == UNMANAGED) { O("bad-op"); continue; }
+      memset(listed, 0, (size_t)maxid + 1);
+      for (size_t k = 2; k < na; k++) listed[args[k]] = 1;
+      want_id = id;
+      int running = gc->running;
+      if (running) {
+        /* ledger: the new object is registered first; then what the collection triggered by this allocation must release
+           (a destructor may delete the new object itself) */
+        state[id] = MANAGED; rootflag[id] = 0;
+        nwork = 0;
+        for (int k = 0; k <= maxid; k++)
+          if (k != id && id_known[k] && state[k] == MANAGED && !rootflag[k] && !listed[k]) { state[k] = DEAD; expdealloc[k]++; work[nwork++] = k; }
+        ledger_finalise_closure(1);
+        gc->mitems = gc->nitems;               /* nitems+1 > mitems: GC_Set runs GC_Mark and GC_Sweep */
+        for (size_t k = 2; k < na; k++) heldx[k - 2] = addr_of(args[k]);
+        heldx[na - 2] = addr_of(id);
+        hook_gc = gc; hook_listed = listed; hook_new_id = id; hook_line = line; hook_fired = 0;
+        v_realloc_hook = tnewx_hook;
+      }
+      var p = NULL;
+      GUARD(gc, line, op, p = alloc(Probe));
+      v_realloc_hook = NULL;
+      for (size_t k = 0; k <= na - 2; k++) heldx[k] = NULL;
+      if (p != addr_of(id)) { X("sig=reg-harness line=%zu what=allocation did not use the probe allocator", line); n_x++; }
+      if (running && hook_fired != 1) { X("sig=reg-harness line=%zu what=the hook between GC_Mark and GC_Sweep fired %d times", line, hook_fired); n_x++; }
+      if (!running && strict) { state[id] = MANAGED; rootflag[id] = 0; stopped_touched[id] = 1; strict_taint = 1; }
+      else if (!running) { state[id] = UNMANAGED; rootflag[id] = 0; }
       emit(gc, line, op, "ok");
     } else if ((!strcmp(op, "del") || !strcmp(op, "delroot")) && na == 1) {
       int id = args[0];
       if (id >= MAXID || !id_known[id]) { O("bad-op"); continue; }
       if (gc->running && state[id] == MANAGED) { state[id] = DEAD; expdealloc[id]++; nwork = 0; work[nwork++] = id; ledger_finalise_closure(1); }
-      if (!strcmp(op, "del")) del(addr_of(id)); else del_root(addr_of(id));
+      else if (!gc->running && strict && state[id] == MANAGED) { state[id] = DEAD; stopped_touched[id] = 1; strict_taint = 1; }   /* deleted, says the property text; never finalised (C06's F23) */
+      if (!strcmp(op, "del")) GUARD(gc, line, op, del(addr_of(id))); else GUARD(gc, line, op, del_root(addr_of(id)));
       emit(gc, line, op, "ok");
     } else if (!strcmp(op, "delraw") && na == 1) {
       int id = args[0];
       if (id >= MAXID || !id_known[id] || state[id] != UNMANAGED) { O("bad-op"); continue; }
       state[id] = DEAD; expdealloc[id]++; nwork = 0; work[nwork++] = id; ledger_finalise_closure(gc->running);
-      del_raw(addr_of(id));
+      GUARD(gc, line, op, del_raw(addr_of(id)));
+      emit(gc, line, op, "ok");
+    } else if (!strcmp(op, "delnull") && na == 0) {
+      GUARD(gc, line, op, del(NULL));
+      emit(gc, line, op, "ok");
+    } else if (!strcmp(op, "dealloc") && na == 1) {
+      int id = args[0];
+      if (id >= MAXID || !id_known[id] || (state[id] != MANAGED && state[id] != UNMANAGED)) { O("bad-op"); continue; }
+      if (state[id] == MANAGED || mem(current(GC), addr_of(id))) { stale[id] = 1; dealloc_taint = 1; }
+      int wasroot = rootflag[id];
+      state[id] = DEAD; expdealloc[id]++;
+      if (wasroot) dealloc_root(addr_of(id)); else dealloc(addr_of(id));
       emit(gc, line, op, "ok");
     } else if (!strcmp(op, "mem") && na == 1) {
       int id = args[0];
@@ -362,7 +473,7 @@ int main(int argc, char** argv) {
       } else {
         for (size_t k = 0; k < na; k++) GC_Mark_Item(gc, addr_of(args[k]));
       }
-      GC_Sweep(gc);
+      GUARD(gc, line, op, GC_Sweep(gc));
       emit(gc, line, op, "ok");
     } else if (!strcmp(op, "stop") && na == 0) { stop(current(GC)); emit(gc, line, op, "ok"); }
     else if (!strcmp(op, "start") && na == 0) { start(current(GC)); emit(gc, line, op, "ok"); }
@@ -374,7 +485,13 @@ int main(int argc, char** argv) {
     } else if (!strcmp(op, "unkill") && na == 1) {
       int a = args[0];
       if (a >= MAXID || !id_known[a]) { O("bad-op"); continue; }
-      nkills[a] = 0; O("unkill %d", a);
+      nkills[a] = 0; killnull[a] = 0; O("unkill %d", a);
+    } else if (!strcmp(op, "killnull") && na == 1) {
+      int a = args[0];
+      if (a >= MAXID || !id_known[a]) { O("bad-op"); continue; }
+      killnull[a] = 1; O("killnull %d", a);
+    } else if (!strcmp(op, "strict") && na == 0) {
+      strict = 1; O("strict");
     } else O("bad-op");
   }
   I("ops=%zu dumps=%zu oracle_failures=%zu max_slots=%zu max_probe_distance=%zu wrapped_entries_seen=%zu", n_ops, n_dumps, n_x, max_slots, max_dist, n_wrapped);
